@@ -519,8 +519,8 @@ and the line number are blanked *only* for the key of the previous blame line; a
 theorem repeat_flow_ok : FlowOk := flowOk_of_tableOk repeat_flow_table_ok
 
 example : (flags ⟨some ['k'], ['k'], 80, [], [], Generated.BlameFlow.numRegs.map (·.2),
-      Generated.BlameFlow.strRegs.map (fun _ => none), fun _ => false⟩).map (fun f => (f.style, f.update)) =
-    some (true, true) := by decide
+      Generated.BlameFlow.strRegs.map (fun _ => none), fun _ => false⟩).map (fun f => f.style) =
+    some true := by decide
 
 /-- The generated table evaluated on a stream with a forward gap (`-L 10,11 -L 80,81`), a backward jump and a
 repeated number inside one attribution: one colour for the attribution throughout, and the table is
